@@ -1,6 +1,7 @@
 package main
 
 import (
+	"bytes"
 	"crypto/sha1"
 	"encoding/json"
 	"flag"
@@ -209,6 +210,16 @@ func runCheck(args []string) int {
 		res *gosym.CellResult
 	}
 	var mu sync.Mutex
+	// thorough tier: worker 0's whole solver session is recorded and replayed
+	// through the other z3 build afterwards (answers must agree)
+	crossLog := ""
+	if *tier == "thorough" || os.Getenv("GOSYM_CROSSCHECK") != "" {
+		if f, err := os.CreateTemp("", "gosym-solverlog-*.smt2"); err == nil {
+			crossLog = f.Name()
+			f.Close()
+			defer os.Remove(crossLog)
+		}
+	}
 	var outs []cellOut
 	var wg sync.WaitGroup
 	stats := make([]gosym.Stats, nw)
@@ -231,6 +242,9 @@ func runCheck(args []string) int {
 				return
 			}
 			defer in.Close()
+			if w == 0 && crossLog != "" {
+				in.LogSolverTo(crossLog)
+			}
 			for j := range jobCh {
 				fn := prog.FindFunc(j.h.Func)
 				in.SetOptions(gosym.Options{MaxDigits: j.h.Digits, MapOrderPerms: j.h.MapPerms, MaxSteps: j.h.MaxSteps, Params: j.h.Params})
@@ -258,6 +272,10 @@ func runCheck(args []string) int {
 			fmt.Println("ERROR: worker initialisation:", e)
 			return 2
 		}
+	}
+	var cross *crossResult
+	if crossLog != "" {
+		cross = crossCheck(crossLog, prog.SolverName())
 	}
 
 	if os.Getenv("GOSYM_MEM") != "" {
@@ -409,6 +427,13 @@ func runCheck(args []string) int {
 	for _, k := range sortedKeysB(known) {
 		fmt.Printf("KNOWN-FINDING: %s\n", k)
 	}
+	if cross != nil {
+		for _, d := range cross.Disagree {
+			inconclusive = append(inconclusive, "solver cross-check: "+d)
+		}
+		fmt.Printf("solver cross-check (%s): %d queries replayed, %d agree, %d undecided by the second solver, %d disagree %s(%.1fs)\n",
+			cross.Solver, cross.Queries, cross.Agree, cross.Unknown2, len(cross.Disagree), cross.Note, cross.WallS)
+	}
 	if len(inconclusive) > 0 {
 		sort.Strings(inconclusive)
 		fmt.Printf("INCONCLUSIVE property=%s (%d items)\n", *prop, len(inconclusive))
@@ -487,6 +512,7 @@ func runCheck(args []string) int {
 				"known_findings_witnessed":      sortedKeysB(known),
 				"reach_labels":                  reachLabels(reached),
 				"digit_bound_pruned_paths":      total.DigitBoundPruned,
+				"solver_cross_check":            cross.summary(),
 				"table_reads_abstracted":        total.TableAbstractions,
 				"table_refinement_facts":        total.TableRefinements,
 				"encoding":                      "go/ssa of /repo working tree rebuilt this run (x/tools v0.29.0, InstantiateGenerics), harness overlay tag verif",
@@ -750,4 +776,92 @@ func runReplayCmd(args []string) int {
 		return 1
 	}
 	return 0
+}
+
+
+// ---- second-solver cross-check of a recorded session ----
+
+type crossResult struct {
+	Solver    string
+	Queries   int
+	Agree     int
+	Unknown2  int // second solver answered unknown/timeout where the primary decided
+	Disagree  []string
+	Note      string
+	WallS     float64
+}
+
+func (c *crossResult) summary() interface{} {
+	if c == nil {
+		return "not run (quick tier)"
+	}
+	return map[string]interface{}{"second_solver": c.Solver, "queries_replayed": c.Queries, "agree": c.Agree,
+		"second_solver_unknown": c.Unknown2, "disagreements": len(c.Disagree), "note": c.Note, "wall_s": c.WallS}
+}
+
+// crossCheck replays worker 0's solver session (every command, in order)
+// through the other installed z3 and compares each check-sat answer with the
+// one recorded.  sat/unsat disagreements are reported; "unknown" from the
+// second solver is counted, not an error (z3 4.8.12 times out on some
+// multiplication queries that 5.1.0 decides).
+func crossCheck(logPath, primary string) *crossResult {
+	second := "z3"
+	if primary == "z3" {
+		second = "z3-new"
+	}
+	res := &crossResult{Solver: second}
+	bin, err := exec.LookPath(second)
+	if err != nil {
+		res.Note = "second solver not installed"
+		return res
+	}
+	data, err := os.ReadFile(logPath)
+	if err != nil {
+		res.Note = "no session log"
+		return res
+	}
+	t0 := time.Now()
+	var want []string
+	var input bytes.Buffer
+	for _, line := range strings.Split(string(data), "\n") {
+		switch {
+		case strings.HasPrefix(line, "; => "):
+			want = append(want, strings.TrimPrefix(line, "; => "))
+		case strings.HasPrefix(line, "(get-value"):
+			// models are not compared
+		case strings.HasPrefix(line, "(set-option :timeout"):
+			input.WriteString("(set-option :timeout 20000)\n")
+		default:
+			input.WriteString(line)
+			input.WriteByte('\n')
+		}
+	}
+	cmd := exec.Command(bin, "-in")
+	cmd.Stdin = &input
+	out, _ := cmd.Output()
+	var got []string
+	for _, line := range strings.Split(string(out), "\n") {
+		line = strings.TrimSpace(line)
+		if line == "sat" || line == "unsat" || line == "unknown" || line == "timeout" {
+			got = append(got, line)
+		}
+	}
+	res.Queries = len(want)
+	if len(got) != len(want) {
+		res.Note = fmt.Sprintf("replay produced %d answers for %d queries (session not comparable)", len(got), len(want))
+		res.WallS = time.Since(t0).Seconds()
+		return res
+	}
+	for i := range want {
+		switch {
+		case want[i] == got[i]:
+			res.Agree++
+		case got[i] == "unknown" || got[i] == "timeout" || want[i] == "unknown" || want[i] == "died":
+			res.Unknown2++
+		default:
+			res.Disagree = append(res.Disagree, fmt.Sprintf("query %d: %s says %s, %s says %s", i, primary, want[i], second, got[i]))
+		}
+	}
+	res.WallS = time.Since(t0).Seconds()
+	return res
 }
